@@ -25,7 +25,7 @@ Record Good (ob : nat -> obj) (n : nat) (W : tbl) (sn sd : list nat) : Prop := m
            oin (ob o) = true;
   g_rows : forall o k, oin (ob o) = true -> okey (ob o) = Some k -> exists v, W k = Some v /\ VA (ob o) k v;
   g_new : forall o, In o sn <-> (o < n /\ okey (ob o) = None /\ oatt (ob o) = true);
-  g_newd : forall o, In o sn -> odelf (ob o) = false;
+  g_newd : forall o, o < n -> okey (ob o) = None -> odelf (ob o) = false;    (* a keyless object is not "deleted" *)
   g_del : forall o, In o sd -> oin (ob o) = true;
   g_nodup : NoDup sn /\ NoDup sd;
   g_dels : forall o k, o < n -> okey (ob o) = Some k -> oatt (ob o) = true -> odelf (ob o) = true ->
